@@ -62,14 +62,23 @@ def handleParseProg (fs : List String) : String :=
     | _ => "bad-program"
   | _ => "bad-request"
 
+/-- the hypothesis `noFalsyB` of `rule_consumes_exactly_its_match`, as the driver evaluates it -/
+def progNoFalsy (prog : XV.Peg.Prog) : Bool :=
+  prog.all (fun r => match r.body with | .alts as _ _ => as.all (fun a => match a.act with | .none => false | .viaItem _ => false | _ => true) | _ => true)
+
+/-- the hypothesis `plainB` of `recogniser_sound_for_peg_semantics`, as the driver evaluates it -/
+def progPlain (prog : XV.Peg.Prog) : Bool :=
+  prog.all (fun r => (match r.deco with | .leftrec => false | _ => true) && (match r.body with
+    | .alts as _ _ => as.all (fun a => (match a.act with | .none => false | .viaItem _ => false | _ => true) &&
+        a.items.all (fun it => match it.item with | .guardInvalid => false | _ => true))
+    | _ => true))
+
 /-- `progfacts # prog` : decidable facts about a program sent over the wire (hypotheses of the C17 theorems) -/
 def handleProgFacts (fs : List String) : String :=
   match fs with
   | "#" :: rest =>
     match WireProg.readProg rest with
-    | some (prog, _) =>
-      let nf := prog.all (fun r => match r.body with | .alts as _ _ => as.all (fun a => match a.act with | .none => false | .viaItem _ => false | _ => true) | _ => true)
-      s!"nofalsy={nf}"
+    | some (prog, _) => s!"nofalsy={progNoFalsy prog} plain={progPlain prog}"
     | none => "bad-program"
   | _ => "bad-request"
 
